@@ -1672,6 +1672,11 @@ LAYOUTS_PLAIN = ("X", "XX")
 LAYOUTS_NEUTRAL = ("NX", "XN", "BX", "NXN", "NNX", "XNB", "BNXX", "NV", "WB", "NVN")
 LAYOUTS_SUB = ("V", "W", "VW", "XV", "VX")
 _CODES = {"N": ("|", "S4"), "B": ("|", "u1")}
+# type codes: every numeric kind at every item size that carries a byte order (property quantifier: "plain arrays of every numeric
+# kind and item size"), and the types that carry none.  The analysed code can tell dtypes of one declared order apart only through
+# kind / itemsize / type string, which the model answers from the code.
+CODES_ORDERED = ("i2", "i4", "i8", "u2", "u4", "u8", "f2", "f4", "f8", "f16", "c8", "c16", "c32")
+CODES_NEUTRAL = ("S4", "S1", "u1", "i1", "b1")
 
 
 def _hostname(h):
@@ -1693,8 +1698,29 @@ def mk_dtype(host, layout, order):
     return MDtype(host, fields=fields)
 
 
-def mk_plain(host, order):
-    return MDtype(host, order, "f8") if order != "|" else MDtype(host, "|", "S4")
+def mk_plain(host, order, code="f8"):
+    return MDtype(host, order, code) if order != "|" else MDtype(host, "|", "S4")
+
+
+def mk_typed(host, order, code):
+    """the dtypes in which a multi-byte item of the given type code and declared order is the only thing with a byte order: the
+    plain dtype, and a structured dtype that has it as a field after a string field"""
+    return (MDtype(host, order, code), MDtype(host, fields=[("f0", MDtype(host, "|", "S4")), ("f1", MDtype(host, order, code))]))
+
+
+def _kind_cases(target_of, run_one, agg):
+    """run_one over every numeric kind x item size x declared order x host, plain and as a field"""
+    for host in HOSTS:
+        target = target_of(host)
+        for order in ORDERS:
+            for code in CODES_ORDERED:
+                for d0 in mk_typed(host, order, code):
+                    ok, text = run_one(host, d0, target)
+                    agg.add(ok, text)
+
+
+_KIND_MSG = ("the decision depends on the declared order only, not on the kind or item size of the items: integer, unsigned, float and "
+             "complex data of every item size are converted alike")
 
 
 def mk_array(host, dtype, count="pos"):
@@ -1787,6 +1813,7 @@ def r16_2(chk, repo):
     agg = {k: _Agg() for k in keys}
     for host in HOSTS:
         dts = [mk_plain(host, o) for o in ORDERS] + [mk_dtype(host, lay, o) for o in ORDERS for lay in ("X", "NX", "BXN", "NV", "XW")]
+        dts += [d for o in ORDERS for code in CODES_ORDERED if code != "f8" for d in mk_typed(host, o, code)]
         for d0 in dts:
             for inplace in (False, True):
                 for keep in (False, True):
@@ -1915,6 +1942,9 @@ def r16_3(chk, repo):
             _emit(chk, "R16.3", "to_native::field-decision-detects-little", a_opp, w,
                   "to_native swaps exactly when the declared order of the fields is not the host's")
         _emit(chk, "R16.3", "%s::plain-array-decision" % name, a_plain, w, "a plain array is swapped exactly when its declared order is not the requested one")
+        a_kind = _Agg()
+        _kind_cases(target_of, run_one, a_kind)
+        _emit(chk, "R16.3", "%s::every-numeric-kind-and-size" % name, a_kind, w, _KIND_MSG)
     _note_units(chk, repo)
 
 
@@ -1989,6 +2019,17 @@ def r16_4(chk, repo):
                          "%s of a sub-array dtype of %r items on a %s-endian host gives %s" % (fi.name, ch + "f8", _hostname(host), text))
         _emit(chk, "R16.4", q + "::order-from-dtype-base", base, fi.where(),
               "the declared order is read from the dtype's base (sub-array dtypes report the order of their items)")
+        kinds = _Agg()
+        for host in HOSTS:
+            for code in CODES_ORDERED + CODES_NEUTRAL:
+                for ch in (ORDERS if code in CODES_ORDERED else ("|",)):
+                    for dt in (MDtype(host, ch, code), MDtype(host, sub=(MDtype(host, ch, code), (2,)))):
+                        got, text = evaluate(host, dt)
+                        kinds.add(None if got is None else got is want(ch, host),
+                                  "%s of %r on a %s-endian host gives %s, the dtype's declared order says %s" % (fi.name, dt, _hostname(host), text, want(ch, host)))
+        _emit(chk, "R16.4", q + "::every-kind-and-size", kinds, fi.where(),
+              "the predicate agrees with the dtype's declared order for every kind and item size (integer, unsigned, float, complex; string, "
+              "boolean and one-byte types are neither order): it depends on the order character only")
         for host in HOSTS:
             for ch in ("<", ">", "=", "|"):
                 got, text = evaluate(host, mk_plain(host, ch))
@@ -2144,6 +2185,10 @@ def r16_6(chk, repo, rule="R16.6", only=None):
         _emit(chk, rule, q + "::data-order-flag", a_data, w, "the data order of a structured array is that of its fields with a byte order (any position, "
               "sub-array items included); string and one-byte fields do not count")
         _emit(chk, rule, q + "::host-order-flag", a_host, w, "the host order is taken from numpy.little_endian")
+        if not flags:           # numpy_util.to_native: R16.3 to_native::every-numeric-kind-and-size
+            a_kind = _Agg()
+            _kind_cases(native, run_one, a_kind)
+            _emit(chk, rule, q + "::every-numeric-kind-and-size", a_kind, w, _KIND_MSG)
     # recfile's in-place converter: swap in place and flip dtype together
     fi = repo.func("esutil.recfile.Util.to_native_inplace")
     agg = _Agg()
